@@ -124,6 +124,8 @@ struct Sw<'a, B: SddBuilder<'a>> {
     sem_rep: HashMap<TT, SddPtr<'a>>,
     sem_last: Option<TT>,
     sem_eq_checks: u64,
+    /// wrong results already re-run in a cold builder (see check)
+    cold_blames: u32,
 }
 
 impl<'a, B: SddBuilder<'a>> Sw<'a, B> {
@@ -262,6 +264,17 @@ impl<'a, B: SddBuilder<'a>> Sw<'a, B> {
         let got = sdd_tt(r, self.n);
         if got != want {
             self.viol(pf, "wrong-function", format!("{:?} [{}] returned the function {:#x}, the definition gives {:#x}", op, self.cfg.json(), got, want), op);
+            // is the builder's history to blame? The same operation on the same arguments in a cold builder
+            // (first 8 wrong results of a configuration): a different answer there means that what earlier
+            // calls left in the builder's caches changed this result - which is also C16's business
+            if self.cold_blames < 8 && self.cfg.n <= 5 && self.cfg.vtree.leaves().iter().all(|&l| l < self.cfg.n) {
+                self.cold_blames += 1;
+                if let Some(cold) = cold_tt(&self.cfg, op) {
+                    if cold != got {
+                        self.viol("C16", "cache-changes-result", format!("{:?} [{}]: the long-lived builder returns the function {:#x}, a cold builder with only the arguments rebuilt returns {:#x}", op, self.cfg.json(), got, cold), op);
+                    }
+                }
+            }
         }
         let id = sdd_id(r);
         if self.hmap.is_some() {
@@ -520,6 +533,30 @@ fn cold_result(cfg: &SCfg, op: &SOp) -> Option<String> {
     with_sdd_builder!(cfg, |b| go(&b, cfg, op))
 }
 
+/// the function a COLD builder (same vtree and mode, nothing but the rebuilt arguments in it) returns
+/// for one operation; None if it panics or the operation has no arguments to rebuild
+fn cold_tt(cfg: &SCfg, op: &SOp) -> Option<TT> {
+    fn go<'a, B: SddBuilder<'a>>(b: &'a B, cfg: &SCfg, op: &SOp) -> Option<TT> {
+        let n = cfg.n;
+        let ui = !cfg.semantic;
+        let lbl = |v: usize| VarLabel::new(v as u64);
+        let r = guarded(|| match op {
+            SOp::And(x, y) => Some(b.and(shannon(b, *x, 0, n, ui), shannon(b, *y, 0, n, ui))),
+            SOp::Or(x, y) => Some(b.or(shannon(b, *x, 0, n, ui), shannon(b, *y, 0, n, ui))),
+            SOp::Xor(x, y) if ui => Some(b.xor(shannon(b, *x, 0, n, ui), shannon(b, *y, 0, n, ui))),
+            SOp::Iff(x, y) if ui => Some(b.iff(shannon(b, *x, 0, n, ui), shannon(b, *y, 0, n, ui))),
+            SOp::Ite(x, y, z) if ui => Some(b.ite(shannon(b, *x, 0, n, ui), shannon(b, *y, 0, n, ui), shannon(b, *z, 0, n, ui))),
+            SOp::Neg(x) => Some(b.negate(shannon(b, *x, 0, n, ui))),
+            SOp::Cond(x, v, val) => Some(b.condition(shannon(b, *x, 0, n, ui), lbl(*v), *val)),
+            SOp::Exists(x, v) => Some(b.exists(shannon(b, *x, 0, n, ui), lbl(*v))),
+            SOp::Compose(x, v, g) if ui => Some(b.compose(shannon(b, *x, 0, n, ui), lbl(*v), shannon(b, *g, 0, n, ui))),
+            _ => None,
+        });
+        r.ok().flatten().map(|p| sdd_tt(p, n))
+    }
+    with_sdd_builder!(cfg, |b| go(&b, cfg, op))
+}
+
 fn sweep<'a, B: SddBuilder<'a>>(b: &'a B, cfg: &SCfg, ctx: &Ctx) -> Report {
     let n = cfg.n;
     let mut s = Sw {
@@ -549,6 +586,7 @@ fn sweep<'a, B: SddBuilder<'a>>(b: &'a B, cfg: &SCfg, ctx: &Ctx) -> Report {
         sem_rep: HashMap::new(),
         sem_last: None,
         sem_eq_checks: 0,
+        cold_blames: 0,
     };
     s.rep.exhaustive = true;
     s.canon.insert(tt::mask(n), (0, 0, false));
@@ -801,7 +839,53 @@ fn sweep<'a, B: SddBuilder<'a>>(b: &'a B, cfg: &SCfg, ctx: &Ctx) -> Report {
                 break;
             }
         }
-        s.recheck_pool();
+        // literal guards: for every materialised function f and variable v the Shannon re-join of its two
+        // cofactors in both arrangements and under both guard polarities, ite(+-v, f|v=1, f|v=0) and
+        // ite(+-v, f|v=0, f|v=1) - after the quantification / conditioning phases above have visited the
+        // same cofactors (whatever those phases filed in the ite cache meets its mirror image here);
+        // with compression on every result is also compared with a cold builder's
+        if !s.stop && !crate::core::disabled("litguard") {
+            let have: std::collections::HashSet<usize> = perm.iter().cloned().collect();
+            let fstep = if total <= 256 { 1 } else { 4 };
+            'g: for &i in perm.iter().step_by(fstep) {
+                let f = i as TT;
+                for v in 0..n {
+                    let (hi, lo) = (tt::cofactor(f, v, true, n), tt::cofactor(f, v, false, n));
+                    if hi == lo || !have.contains(&(hi as usize)) || !have.contains(&(lo as usize)) {
+                        continue;
+                    }
+                    for pol in [true, false] {
+                        let g = tt::lit(v, pol, n);
+                        if !have.contains(&(g as usize)) {
+                            continue;
+                        }
+                        for (a, b) in [(hi, lo), (lo, hi)] {
+                            let op = SOp::Ite(g, a, b);
+                            let r = s.issue(op.clone());
+                            if cfg.cold_stride > 0 && cfg.compress {
+                                if let Some(r) = r {
+                                    let warm = sdd_canon(r);
+                                    s.rep.add_extra("cold_builder_comparisons", 1);
+                                    if let Some(cold) = cold_result(cfg, &op) {
+                                        if cold != warm {
+                                            s.viol("C16", "cache-changes-result", format!("{:?} [{}]: warm {} vs cold {}", op, cfg.json(), warm, cold), &op);
+                                        }
+                                    }
+                                }
+                            }
+                            if s.stop {
+                                break 'g;
+                            }
+                        }
+                    }
+                }
+                if ctx.over_time() || ctx.over_mem() {
+                    s.rep.cap("wall-clock or memory cap inside the SDD literal-guard ite sweep");
+                    break;
+                }
+            }
+            s.recheck_pool();
+        }
     }
     let mut rep = s.rep;
     rep.traces = 1;
